@@ -20,8 +20,8 @@ from pathlib import Path
 from typing import Any, Dict, List, Optional, Tuple
 
 ID = "C06"
-LEAN_MODULES = ["FaxVerif.C06.Theorems"]
-LEAN_SOURCES = ["FaxVerif/C06", "FaxVerif/Generated/C06Tables.lean"]
+LEAN_MODULES = ["FaxVerif.C06.Theorems", "FaxVerif.C06.ExtTheorems"]
+LEAN_SOURCES = ["FaxVerif/C06", "FaxVerif/Generated/C06Tables.lean", "FaxVerif/Generated/C06Render.lean"]
 DRIVER = "FaxVerif/C06/Driver.lean"
 THEOREMS: List[str] = []  # filled in below (kept next to the texts that describe them)
 
@@ -47,6 +47,14 @@ def translate(ctx):
     text, data = tr.generate(vlib.REPO)
     vlib.write_if_changed(vlib.LEAN / "FaxVerif/Generated/C06Tables.lean", text)
     ctx.c06_data = data
+    from c06_lib import render_tr
+
+    rtext, rdata = render_tr.generate(vlib.REPO)
+    vlib.write_if_changed(vlib.LEAN / "FaxVerif/Generated/C06Render.lean", rtext)
+    ctx.c06_render = rdata
+    ctx.count("translator:unrecognised-render", len(rdata["unrecognised"]))
+    if rdata["unrecognised"]:
+        ctx.notes.append("render translator could not interpret: " + "; ".join(rdata["unrecognised"][:5]))
     ctx.count("translator:unrecognised", len(data["unrecognised"]))
     if data["unrecognised"]:
         ctx.notes.append("translator could not interpret: " + "; ".join(data["unrecognised"][:5]))
@@ -84,10 +92,18 @@ def item_src(it) -> str:
         return f"{use_src(it['use'])}.{it['method']}()"
     if k == "nested":
         return f"{use_src(it['use'])}.Select(lambda o: {use_src(it['inner'])}.Count())"
+    if k == "expr":
+        from c06_lib import positions
+
+        return positions.expr_src(it["e"])
     raise ValueError(k)
 
 
 def where_src(w) -> str:
+    if w["kind"] == "expr":
+        from c06_lib import positions
+
+        return f"{positions.expr_src(w['e'])} > 0"
     if w["kind"] == "count":
         return f"{use_src(w['use'])}.Count() >= 0"
     return f"{use_src(w['use'])}.{w['method']}() >= 0"
@@ -95,8 +111,17 @@ def where_src(w) -> str:
 
 def query_src(case) -> str:
     s = "ds"
+    # companion metadata (function declarations, inject_code blocks): chained before or after the
+    # collection declarations; never part of `mds` (the Spec's declarations)
+    extras = case.get("extras") or []
+    if case.get("extras_at", "pre") == "pre":
+        for md in extras:
+            s += f".MetaData({md!r})"
     for md in case["mds"]:
         s += f".MetaData({md!r})"
+    if case.get("extras_at", "pre") != "pre":
+        for md in extras:
+            s += f".MetaData({md!r})"
     for w in case["where"]:
         s += f".Where({'lambda e: ' + where_src(w)!r})"
     if case["main"] == "selectmany":
@@ -104,7 +129,10 @@ def query_src(case) -> str:
         s += f".SelectMany({'lambda e: ' + use_src(it['use'])!r}).Select({'lambda o: o.' + it['method'] + '()'!r})"
     else:
         items = [item_src(it) for it in case["items"]]
-        body = items[0] if len(items) == 1 else "(" + ", ".join(items) + ")"
+        if case["main"] == "dict":
+            body = "{" + ", ".join(f"'k{i}': {x}" for i, x in enumerate(items)) + "}"
+        else:
+            body = items[0] if len(items) == 1 else "(" + ", ".join(items) + ")"
         s += f".Select({'lambda e: ' + body!r})"
     return s
 
@@ -113,6 +141,11 @@ def uses_of(case) -> List[Tuple[Dict[str, Any], List[int]]]:
     """The collection calls in emission order with their consumers (loops, elemCalls, selfCalls)."""
     res = []
     for w in case["where"]:
+        if w["kind"] == "expr":
+            from c06_lib import positions
+
+            res += [(u, None) for u in positions.expr_uses(w["e"])]
+            continue
         res.append((w["use"], [1, 0, 0] if w["kind"] == "count" else [0, 0, 1]))
     if case["main"] == "selectmany":
         res.append((case["items"][0]["use"], [1, 1, 0]))
@@ -128,7 +161,25 @@ def uses_of(case) -> List[Tuple[Dict[str, Any], List[int]]]:
         elif k == "nested":
             res.append((it["use"], [1, 0, 0]))
             res.append((it["inner"], [1, 0, 0]))
+        elif k == "expr":
+            # how often the value is iterated / accessed depends on the position: the consumer counts
+            # are read off the implementation's text (the theorems hold for every consumer list)
+            from c06_lib import positions
+
+            res += [(u, None) for u in positions.expr_uses(it["e"])]
     return res
+
+
+def inc_mode(case) -> str:
+    """How the include / library clause is judged (Spec.lean IncMode): exactly, on the collection
+    headers only (other sources of headers present: functions), or on the include closure of the
+    rendered source (inject_code blocks present)."""
+    extras = case.get("extras") or []
+    if any(m.get("metadata_type") == "inject_code" for m in extras):
+        return "cover"
+    if extras or any(it["kind"] == "expr" for it in case["items"]) or any(w["kind"] == "expr" for w in case["where"]):
+        return "restricted"
+    return "exact"
 
 
 def md_json(md: Dict[str, Any]) -> Dict[str, Any]:
@@ -145,19 +196,22 @@ def md_json(md: Dict[str, Any]) -> Dict[str, Any]:
     return {"type": md["metadata_type"], "fields": fields}
 
 
-def lean_uses(case, rng=None) -> List[Dict[str, Any]]:
+def lean_uses(case, rng=None, obs=None) -> List[Dict[str, Any]]:
     res = []
-    for u, cons in uses_of(case):
+    for i, (u, cons) in enumerate(uses_of(case)):
         args = [{"s": a["s"]} if "s" in a else {"o": 1} for a in u["args"]]
+        if cons is None:
+            fr = (obs or {}).get("frags") or []
+            cons = [len(fr[i]["iters"]), len(fr[i]["elemOps"]), len(fr[i]["selfOps"])] if i < len(fr) else [0, 0, 0]
         res.append({"name": u["name"], "args": args, "skip": (rng.randint(0, 3) if rng else 0), "cons": cons})
     return res
 
 
-def lean_job(case, rng=None) -> Dict[str, Any]:
+def lean_job(case, rng=None, obs=None) -> Dict[str, Any]:
     # func_adl's extract_metadata hands the MetaData calls over outermost first, i.e. in the
     # reverse of the order they are chained in the query text; the model takes them in the order
     # process_metadata sees them
-    return {"backend": case["backend"], "mds": [md_json(m) for m in reversed(case["mds"])], "uses": lean_uses(case, rng)}
+    return {"backend": case["backend"], "mds": [md_json(m) for m in reversed(case["mds"])], "uses": lean_uses(case, rng, obs)}
 
 
 def case_key(case) -> str:
@@ -221,6 +275,13 @@ def run_impl(case) -> Dict[str, Any]:
             pass
         return {"rejected": True, "error": r.get("error"), "message": r.get("message", "")[:200]}
     incs, libs = rendered_lists(case["backend"], r)
+    mode = inc_mode(case)
+    if mode == "cover":
+        from c06_lib import positions
+
+        clo = positions.include_closure("query.cxx" if case["backend"] == "atlas" else "Analyzer.cc", r["files"])
+        if clo is not None:
+            incs = clo
     strip = lambda ls: [l.strip() for l in ls if l.strip()]
     out = {
         "body": strip(r["query"]),
@@ -432,12 +493,16 @@ def judge_jobs(ctx, stream: str, cases: List[Dict[str, Any]], report: bool = Tru
     """Run implementation, model and Spec on the cases; returns per-case verdict records."""
     impls = [run_impl(c) for c in cases]
     ctx.check_time()
-    reqs = []
-    for c, im in zip(cases, impls):
-        job = lean_job(c, ctx.rng)
-        reqs.append({"op": "job", **job, "c0": ctx.rng.randint(0, 120), "gap": ctx.rng.randint(0, 7)})
-        reqs.append({"op": "spec", **job, "impl": impl_for_lean(im)})
-    ans = ctx.driver(DRIVER, reqs)
+    # first the Spec on the implementation's text, then the model (position cases take the consumer
+    # counts from the observation of the implementation's text)
+    sreqs = [{"op": "spec", **lean_job(c), "impl": impl_for_lean(im), "mode": inc_mode(c)} for c, im in zip(cases, impls)]
+    sans = ctx.driver(DRIVER, sreqs)
+    jreqs = []
+    for c, im, s in zip(cases, impls, sans):
+        job = lean_job(c, ctx.rng, s.get("obs") if isinstance(s, dict) else None)
+        jreqs.append({"op": "job", **job, "c0": ctx.rng.randint(0, 120), "gap": ctx.rng.randint(0, 7)})
+    jans = ctx.driver(DRIVER, jreqs)
+    ans = [x for pair in zip(jans, sans) for x in pair]
     out = []
     for i, (c, im) in enumerate(zip(cases, impls)):
         m, s = ans[2 * i], ans[2 * i + 1]
@@ -455,15 +520,30 @@ def judge_jobs(ctx, stream: str, cases: List[Dict[str, Any]], report: bool = Tru
             ctx.count("filtered:" + ",".join(k for k, v in flt.items() if not v))
             continue
         if report:
-            ctx.count(f"stream:{stream}")
+            ctx.count(f"stream:{stream[i] if isinstance(stream, list) else stream}")
             ctx.count(f"backend:{c['backend']}")
             ctx.count("impl:" + ("rejected:" + str(im.get("error")) if im.get("rejected") else "translated"))
             ctx.count(f"uses:{min(len(uses_of(c)), 7)}")
             ctx.count(f"declared:{len(c['mds'])}")
             for it in c["items"]:
+                if it["kind"] == "expr":
+                    from c06_lib import positions
+
+                    for pk in positions.position_kinds(it["e"], "dict-element" if c["main"] == "dict" else "top"):
+                        ctx.count("position:" + pk)
+                    continue
                 ctx.count("position:" + ("selectmany" if c["main"] == "selectmany" else it["kind"]))
-            for _ in c["where"]:
+            for w in c["where"]:
+                if w["kind"] == "expr":
+                    from c06_lib import positions
+
+                    for pk in positions.position_kinds(w["e"], "where"):
+                        ctx.count("position:" + pk)
+                    continue
                 ctx.count("position:where")
+            ctx.count("include-clause:" + inc_mode(c))
+            for xm in c.get("extras") or []:
+                ctx.count("companion:" + str(xm.get("metadata_type")))
             if not im.get("rejected") and not im.get("rendered", True):
                 ctx.count("rendered-lists-unreadable")
             ctx.case(case_key(c), nontrivial(c) and not im.get("rejected"), {"backend": c["backend"], "query": src, "implementation": "rejected" if im.get("rejected") else "translated", "spec_holds": holds})
@@ -478,6 +558,12 @@ def judge_jobs(ctx, stream: str, cases: List[Dict[str, Any]], report: bool = Tru
         # the tie
         mi = {"rejected": True} if "err" in m else canon_obs(m.get("ok"))
         ii = {"rejected": True} if im.get("rejected") else canon_obs(s.get("obs"))
+        if inc_mode(c) != "exact" and isinstance(mi, dict) and isinstance(ii, dict) and "includes" in mi and "includes" in ii:
+            # other sources of headers / libraries are present: compare the collection part
+            for k in ("includes", "libs"):
+                ii[k] = [h for h in ii[k] if h in mi[k]]
+                if inc_mode(c) == "cover":  # the closure: a set
+                    ii[k], mi[k] = sorted(set(ii[k])), sorted(set(mi[k]))
         if mi != ii and report:
             ctx.disagreement("job", {"backend": c["backend"], "query": src, "case": c}, m if "err" in m else mi, ({"rejected": im.get("error"), "message": im.get("message")} if im.get("rejected") else ii))
         rec["agree"] = mi == ii
@@ -804,6 +890,58 @@ def systematic_cases(ctx) -> List[Dict[str, Any]]:
     return res
 
 
+def _rows_of(ctx):
+    return lambda b: ctx.c06_data["backends"][b]["rows"]
+
+
+def position_cases(ctx, n_random: int) -> List[Dict[str, Any]]:
+    """Collection calls at every position of a query: the directed family (every position kind x
+    backend) and random expression trees over built-in and declared collections."""
+    from c06_lib import positions
+
+    res = positions.directed_position_cases(ctx, _rows_of(ctx))
+    rng = ctx.rng
+    for _ in range(n_random):
+        b = rng.choice(BACKENDS)
+        pool: Dict[str, bool] = dict(builtin_names(ctx, b))
+        mds = []
+        if rng.random() < 0.35:
+            name = rng.choice(["Foo", "Bars", "my_things"] + [n for n, c in pool.items() if c][:2])
+            mds.append(gen_md(ctx, rng, b, name))
+            pool[name] = True
+
+        def pick_use(want_coll=None, pool=pool, mds=mds):
+            cands = [n for n, c in pool.items() if want_coll is None or c == want_coll]
+            if mds and rng.random() < 0.4 and (want_coll is None or want_coll):
+                cands = [mds[0]["name"]]
+            return {"name": rng.choice(cands), "args": [{"s": gen_bank(rng)}]}
+
+        items = []
+        for _k in range(rng.choice([1, 1, 2, 3])):
+            if items and rng.random() < 0.3:
+                items.append({"kind": "count", "use": pick_use(True)})
+            else:
+                items.append({"kind": "expr", "e": positions.gen_expr(rng, pick_use, pool, rng.choice([1, 2, 2, 3]))})
+        where = []
+        if rng.random() < 0.3:
+            where.append({"kind": "expr", "e": positions.gen_expr(rng, pick_use, pool, rng.choice([1, 2]))})
+        main = "dict" if rng.random() < 0.3 else "tuple"
+        res.append(positions.mk_case(b, items, where=where, mds=mds, main=main, extras_at=rng.choice(["pre", "post"])))
+    return res
+
+
+def declaration_cases(ctx, full: bool) -> List[Dict[str, Any]]:
+    from c06_lib import positions
+
+    return positions.decl_order_cases(ctx, _rows_of(ctx), full)
+
+
+def companion_cases(ctx, full: bool) -> List[Dict[str, Any]]:
+    from c06_lib import positions
+
+    return positions.companion_cases(ctx, _rows_of(ctx), full)
+
+
 # ----------------------------------------------------------------------------------------- run
 
 
@@ -824,6 +962,9 @@ def run(ctx):
     validate_stream(ctx)
     subst_stream(ctx, 1000 if ctx.tier == "quick" else 12000)
     all_recs = judge_jobs(ctx, "systematic", systematic_cases(ctx))
+    pc, dc, cc = position_cases(ctx, 40 if ctx.tier == "quick" else 700), declaration_cases(ctx, ctx.tier != "quick"), companion_cases(ctx, ctx.tier != "quick")
+    all_recs += judge_jobs(ctx, ["positions"] * len(pc) + ["declaration-lists"] * len(dc) + ["companions"] * len(cc), pc + dc + cc)
+    ctx.check_time()
     n = 500 if ctx.tier == "quick" else 6000
     cases = []
     for i in range(n):
@@ -834,7 +975,7 @@ def run(ctx):
         ctx.check_time()
     if ctx.tier == "thorough":
         # executed-artefact oracle on jobs of the clean domain (faulty ones are refused before any code exists)
-        good = [r["case"] for r in all_recs if not r["bad"] and r["ok"] and not r["impl"].get("rejected") and all(r["spec"].get("filters", {}).values())]
+        good = [r["case"] for r in all_recs if not r["bad"] and r["ok"] and not r["impl"].get("rejected") and all(r["spec"].get("filters", {}).values()) and inc_mode(r["case"]) == "exact"]
         sample = [c for c in good if len(uses_of(c)) == 1][:15] + [c for c in good if len(uses_of(c)) > 1][:30]
         exec_stream(ctx, sample)
         ctx.check_time()
@@ -871,6 +1012,19 @@ def shrink(ctx, case):
             cands.append({**case, "where": case["where"][:i] + case["where"][i + 1 :]})
         for i in range(len(case["mds"])):
             cands.append({**case, "mds": case["mds"][:i] + case["mds"][i + 1 :]})
+        from c06_lib import positions
+
+        for i, it in enumerate(case["items"]):
+            if it["kind"] == "expr":  # a sub-expression that still holds a collection call in place of the expression
+                for ch in positions.expr_children(it["e"]):
+                    if positions.expr_uses(ch):
+                        cands.append({**case, "items": case["items"][:i] + [{"kind": "expr", "e": ch}] + case["items"][i + 1 :]})
+        ex = case.get("extras") or []
+        for i in range(len(ex)):
+            needed = {f for it in case["items"] if it["kind"] == "expr" for f in positions.expr_fns(it["e"])} | {f for w in case["where"] if w["kind"] == "expr" for f in positions.expr_fns(w["e"])}
+            if ex[i].get("metadata_type") == "add_cpp_function" and ex[i].get("name") in needed:
+                continue
+            cands.append({**case, "extras": ex[:i] + ex[i + 1 :]})
         for c in cands:
             if fails(c):
                 case, changed = c, True
@@ -892,6 +1046,7 @@ def search(ctx, broken):
             md = gen_md(ctx, ctx.rng, b, "Foo", singleton)
             it = {"kind": "single" if singleton else "selmethod", "use": {"name": "Foo", "args": [{"s": "bank"}]}, "method": "pt"}
             cases.append({"backend": b, "mds": [md], "where": [], "main": "tuple", "items": [it]})
+    cases += declaration_cases(ctx, True) + companion_cases(ctx, True) + position_cases(ctx, 300)
     for _ in range(1500):
         cases.append(gen_case(ctx, ctx.rng, error=ctx.rng.choice(ERRORS) if ctx.rng.random() < 0.2 else None))
     recs = judge_jobs(ctx, "search", cases, report=False)
@@ -901,7 +1056,7 @@ def search(ctx, broken):
     bad = [r for r in bad if case_key(r["case"]) not in known]
     if not bad:
         # second judge: the compiled job against the mock event store (every built-in alone)
-        ex = exec_stream(ctx, [c for c in cases if len(uses_of(c)) == 1 and not c["mds"]][:20], report=False)
+        ex = exec_stream(ctx, [c for c in cases if len(uses_of(c)) == 1 and not c["mds"] and inc_mode(c) == "exact"][:20], report=False)
         exbad = [e for e in ex if not e["ok"]]
         if exbad:
             e = exbad[0]
@@ -993,6 +1148,18 @@ THEOREMS = ["FaxVerif.C06." + t for t in [
     "run_spec_partial",
     "miniaod_tokens_distinct",
     "run_spec_element_pointer",
+    # extension (ExtTheorems.lean)
+    "render_source_recognised",
+    "every_collection_call_found",
+    "finder_without_descent_counterexample",
+    "run_spec_tree_partial",
+    "decl_refused_iff",
+    "foreign_decl_refused_any_position",
+    "include_closure_covers",
+    "link_line_covers",
+    "header_includes_only_atlas",
+    "run_spec_modes",
+    "run_spec_closure",
 ]]
 
 RULE = (
@@ -1005,6 +1172,15 @@ RULE = (
     "of built-ins per backend. A job is non-trivial when it is translated and has >=2 collection calls or >=1 declaration; distinct = distinct "
     "(backend, query text). process_metadata: every subset of 8 keys x contains_collection x 3 backends (non-trivial: accepted or well formed). "
     "_replace_whole_words: the running-code lines plus random concatenations of 21 atoms (non-trivial: contains the word collection_name). "
+    "Positions: per backend a directed family that puts e.<Coll>(bank) (.Count(), .First().m(), .Select(..).Sum(), singleton method) inside the "
+    "arguments of DeltaR, of functions declared with add_cpp_function (plain and method-style), of sqrt/abs, of element methods, in test and "
+    "branches of conditionals, as operands, in nested lambdas (Where / Select bodies), in dict and tuple elements and in Where clauses, with built-in "
+    "and declared collections; plus random expression trees of depth 1-3 over these constructors (40 quick / 700 thorough). Declaration lists: per backend "
+    "pairs and triples of declarations of ONE name for the own and the foreign backends (identical fields or different), every order, an unrelated "
+    "declaration in between, own-only lists (thorough: all permutations). Companions: every (quick: two) built-in collection and a declared one beside "
+    "inject_code blocks naming the collection's own headers / libraries in header_includes, body_includes, both or neither, chained before or after; "
+    "the include clause is then judged on the include closure of the rendered main source (cover), with C++ functions present on the collection "
+    "headers among the body includes (restricted). "
     "Inputs inside a defect exclusion of a _partial theorem are produced by the known-findings stream only. Thorough tier: 45 translated jobs "
     "are compiled with g++ against a generated stand-in of the declared data model and a mock event store and run for one event (ATLAS also with "
     "one bank missing); ExecSpec is evaluated on the log of (container type, bank) requests."
@@ -1021,6 +1197,14 @@ TRUSTED_BASE = [
     "in the thorough tier by running the rendered jobs compiled against tools/c06_lib/cppmock.py (mock event store / event, a test double); "
     "string literal escaping is C18's subject (cppLit is re-stated here and tied by the job stream)",
     "func_adl (front end, extract_metadata order: outermost MetaData first, simplify_chained_calls) - tied only by correspondence",
+    "tools/c06_lib/positions.py: the position-expression grammar, its rendering as func_adl text and the emission order of the collection calls "
+    "(depth first, func field before arguments, test of a conditional before its branches) - the order is checked by the job stream itself "
+    "(a wrong order pairs blocks with the wrong calls); the tree model PExpr of ExtModel.lean abstracts python ast nodes to "
+    "{atom, string, name.attr(args), fn(args), other call, other node} and is tied to cpp_ast_finder only through these jobs",
+    "tools/c06_lib/render_tr.py (write_cpp_files' list expressions and the #include / LINK_LIBRARIES loops of the templates -> Generated/C06Render.lean); "
+    "the include closure read from the rendered files follows #include lines to other rendered files by base name",
+    "in restricted / cover mode a block `{ ...; x = result; }` counts as a retrieval only if it holds a retrieve( / getByLabel( / getByToken( call "
+    "(inline blocks of C++ functions end in `x = result;` too)",
 ]
 ASSUMPTIONS = [
     "metadata values have the documented Python types (Md.WellTyped); other types are outside the model",
@@ -1029,15 +1213,21 @@ ASSUMPTIONS = [
     "one MetaData dict per declaration with distinct keys; the order in which declarations reach process_metadata is func_adl's (outermost first)",
 ]
 LEVEL_TEXT = (
-    "Machine-checked proof (Lean 4, 27 theorems) about an executable model of the collection path (process_metadata branches, backend test, "
+    "Machine-checked proof (Lean 4, 38 theorems) about an executable model of the collection path (process_metadata branches, backend test, "
     "name table with override, get_collection, whole-word substitution of the bank, process_ast_node, include/library accumulation, name counter): "
     "for every backend, every list of metadata declarations, every list of collection calls with arbitrary bank strings and repetitions and every "
     "position of the name counters, run_spec_partial proves RunSpec: refusal exactly for malformed/foreign declarations and ill-shaped calls, "
     "otherwise one block `T x; { T result(=0); IDIOM_b(T, bank); x = result; }` per call with the hand-written idiom of the backend, distinct "
     "variables, distinct once-declared once-initialised miniAOD tokens, singleton = value, headers/libraries de-duplicated in order of first use; "
     "plus validate_iff, override, backend_refused, call_shape, dedup, failed_retrieve_aborts and decide-theorems over the tables regenerated from "
-    "the source on every run (built-in rows, default types, whitelists vs README). The decidable RunSpec is evaluated on the text the real "
-    "pipeline produced for every generated job; model and implementation are compared on the same inputs."
+    "the source on every run (built-in rows, default types, whitelists vs README). Extension: cpp_ast_finder as a traversal of expression trees - "
+    "every_collection_call_found: for every tree and every position (arguments of rewritten calls included) each call naming a known function is "
+    "rewritten exactly once and none is left (with the no-descent traversal as a proved counterexample); decl_refused_iff / "
+    "foreign_decl_refused_any_position: a declaration list is refused iff some member, at any position, is malformed or foreign; "
+    "include_closure_covers / link_line_covers / run_spec_closure: on every backend and beside any inject_code blocks the include closure of the "
+    "rendered main source (lists and template loops regenerated from executor.py and the templates) holds every header of every used collection. "
+    "The decidable RunSpec (RunSpecM with the include clause read exactly / on collection headers / on the include closure) is evaluated on the "
+    "text the real pipeline produced for every generated job; model and implementation are compared on the same inputs."
 )
 LEVEL_NOTE = (
     "Partial where the code violates the property: run_spec_partial excludes (decidable hypotheses, each with a counterexample theorem and a listed "
@@ -1047,7 +1237,11 @@ LEVEL_NOTE = (
     "not proved), the translator, the harness, the text reader, the consumer model; where in the per-event code the translator places the block "
     "(C01's Gen model) is not part of this claim - blocks are found wherever they are. failed_retrieve_aborts rests on a stated semantics of the "
     "status-checked idiom; the thorough tier validates it by executing g++-compiled jobs against a mock event store with a missing bank "
-    "(sampled, not proved)."
+    "(sampled, not proved). Extension: the finder theorems are about the tree model PExpr (python ast abstracted to six node kinds; tied to "
+    "cpp_ast_finder by translating generated queries with collection calls at every position kind, not by a source translator); the include "
+    "closure theorems are about write_cpp_files' list expressions and the templates' #include loops as regenerated by render_tr.py (a change of "
+    "either to something else than plain concatenation / a plain loop stops render_source_recognised); that the visitor's include list holds the "
+    "collection headers beside function headers is tied by the restricted-mode job stream (function headers disjoint from collection headers)."
 )
 TECHNIQUE = "Lean 4 theorems over an executable model + source translator (tables, templates, metadata branches) + differential execution against the real pipeline"
 DESIGN_REF = "DESIGN.md §4 C06"
